@@ -58,6 +58,10 @@ func createInMemory(cursor *InMemory, parse parser.Parser, pos int) error {
 		return err
 	}
 
+	if _, isNamespace := n.(node.Namespace); isEnd || !isNamespace {
+		pos = inheritNamespaces(cursor, pos)
+	}
+
 	if isEnd {
 		return createInMemory(cursor.parent, parse, pos)
 	}
@@ -70,7 +74,7 @@ func createInMemory(cursor *InMemory, parse parser.Parser, pos int) error {
 		cursor.attributes = append(cursor.attributes, createNonElement(v, cursor, pos))
 	case node.Element:
 		pos++
-		next, pos := createElement(v, cursor, pos)
+		next := createElement(v, cursor, pos)
 		cursor.nodes = append(cursor.nodes, next)
 		return createInMemory(next, parse, pos)
 	default:
@@ -81,21 +85,45 @@ func createInMemory(cursor *InMemory, parse parser.Parser, pos int) error {
 	return createInMemory(cursor, parse, pos)
 }
 
-func addNamespace(ns node.Namespace, cursor *InMemory, pos int) int {
-	toReplace := -1
+// inheritNamespaces gives the element its own namespace node for every
+// in-scope binding of its parent that the element did not re-declare. It is
+// called once the element's own declarations have been seen (calling it again
+// is harmless), so that namespace positions stay below attribute and children
+// positions.
+func inheritNamespaces(cursor *InMemory, pos int) int {
+	if cursor.parent == cursor {
+		return pos
+	}
 
-	for pos, i := range cursor.namespaces {
-		nsTest := i.(*InMemory).node.(node.Namespace)
+	for _, i := range cursor.parent.namespaces {
+		ns := i.(*InMemory).node.(node.Namespace)
 
-		if nsTest.Prefix() == ns.Prefix() {
-			toReplace = pos
-			break
+		if findNamespace(cursor, ns.Prefix()) < 0 {
+			pos++
+			cursor.namespaces = append(cursor.namespaces, createNonElement(ns, cursor, pos))
 		}
 	}
 
+	return pos
+}
+
+func findNamespace(cursor *InMemory, prefix string) int {
+	for pos, i := range cursor.namespaces {
+		if i.(*InMemory).node.(node.Namespace).Prefix() == prefix {
+			return pos
+		}
+	}
+
+	return -1
+}
+
+func addNamespace(ns node.Namespace, cursor *InMemory, pos int) int {
+	toReplace := findNamespace(cursor, ns.Prefix())
+
 	if toReplace < 0 {
+		pos++
 		cursor.namespaces = append(cursor.namespaces, createNonElement(ns, cursor, pos))
-		return pos + 1
+		return pos
 	}
 
 	nsPos := cursor.namespaces[toReplace].(*InMemory).pos
@@ -112,23 +140,13 @@ func createNonElement(node node.Node, parent *InMemory, pos int) *InMemory {
 	return &next
 }
 
-func createElement(node node.Node, parent *InMemory, pos int) (*InMemory, int) {
+func createElement(node node.Node, parent *InMemory, pos int) *InMemory {
 	next := initElement()
 	next.node = node
 	next.pos = pos
 	next.parent = parent
 
-	ns := make([]Cursor, len(parent.namespaces))
-	copy(ns, parent.namespaces)
-
-	next.namespaces = ns
-
-	for _, i := range next.namespaces {
-		pos++
-		i.(*InMemory).pos = pos
-	}
-
-	return &next, pos + len(next.namespaces)
+	return &next
 }
 
 func (c *InMemory) Pos() int {
